@@ -2,7 +2,14 @@ package grpctarget
 
 import (
 	"context"
+	"crypto/ecdsa"
+	"crypto/elliptic"
+	"crypto/rand"
+	"crypto/tls"
+	"crypto/x509"
+	"crypto/x509/pkix"
 	"encoding/json"
+	"math/big"
 	"net"
 	"sort"
 	"strconv"
@@ -13,6 +20,7 @@ import (
 	"github.com/yandex/pandora/examples/grpc/server"
 	"google.golang.org/grpc"
 	"google.golang.org/grpc/codes"
+	"google.golang.org/grpc/credentials"
 	"google.golang.org/grpc/metadata"
 	"google.golang.org/grpc/reflection"
 	"google.golang.org/grpc/stats"
@@ -34,6 +42,7 @@ type Target struct {
 	rec      *Rec
 	name     string
 	slowFor  time.Duration
+	waitFor  time.Duration
 	track    bool
 	received int64
 	srv      *grpc.Server
@@ -100,7 +109,31 @@ type GRPCOpts struct {
 	TrackConns bool
 	Addr       string
 	SlowFor    time.Duration
+	WaitFor    time.Duration // a Hello whose name starts with "wait" is answered after that long
 	Rich       bool // also serve verif.MapService (rich.go): the JSON -> protobuf mapping classes
+	TLS        bool // serve TLS with a self-signed certificate (the gun's `tls: true` does not verify it)
+	// ReflNeeds: the reflection service only answers streams whose metadata carries these pairs (others: Unauthenticated)
+	ReflNeeds map[string]string
+}
+
+// ReflKey: the metadata key the conformance runs use for reflection credentials (reflect_metadata); the target reports
+// for every load call whether it carried that key -- it must not.
+const ReflKey = "x-refl-auth"
+
+func selfSigned() tls.Certificate {
+	key, err := ecdsa.GenerateKey(elliptic.P256(), rand.Reader)
+	if err != nil {
+		panic(err)
+	}
+	tmpl := &x509.Certificate{SerialNumber: big.NewInt(1), Subject: pkix.Name{CommonName: "verif target"},
+		NotBefore: time.Now().Add(-time.Hour), NotAfter: time.Now().Add(24 * time.Hour),
+		KeyUsage: x509.KeyUsageDigitalSignature, ExtKeyUsage: []x509.ExtKeyUsage{x509.ExtKeyUsageServerAuth},
+		IPAddresses: []net.IP{net.ParseIP("127.0.0.1")}, DNSNames: []string{"localhost"}}
+	der, err := x509.CreateCertificate(rand.Reader, tmpl, tmpl, &key.PublicKey, key)
+	if err != nil {
+		panic(err)
+	}
+	return tls.Certificate{Certificate: [][]byte{der}, PrivateKey: key}
 }
 
 type connKey struct{}
@@ -125,13 +158,31 @@ func (h connStats) TagRPC(ctx context.Context, _ *stats.RPCTagInfo) context.Cont
 func (h connStats) HandleRPC(context.Context, stats.RPCStats)                       {}
 
 func StartGRPCOpts(rec *Rec, o GRPCOpts) *Target {
-	t := &Target{rec: rec, name: o.Name, slowFor: o.SlowFor, track: o.TrackConns}
+	t := &Target{rec: rec, name: o.Name, slowFor: o.SlowFor, waitFor: o.WaitFor, track: o.TrackConns}
 	opts := []grpc.ServerOption{grpc.UnaryInterceptor(t.intercept)}
+	if o.TLS {
+		opts = append(opts, grpc.Creds(credentials.NewTLS(&tls.Config{Certificates: []tls.Certificate{selfSigned()}})))
+	}
 	if o.TrackConns {
 		opts = append(opts, grpc.StatsHandler(connStats{t}), grpc.StreamInterceptor(
 			func(srv interface{}, ss grpc.ServerStream, info *grpc.StreamServerInfo, h grpc.StreamHandler) error {
 				id, _ := ss.Context().Value(connKey{}).(int)
-				t.rec.Emit(E{"ev": "ReflCall", "srv": t.name, "conn": id, "method": info.FullMethod})
+				md, _ := metadata.FromIncomingContext(ss.Context())
+				auth := ""
+				if v := md.Get(":authority"); len(v) > 0 {
+					auth = v[0]
+				}
+				ok := true
+				for k, want := range o.ReflNeeds {
+					if v := md.Get(k); len(v) != 1 || v[0] != want {
+						ok = false
+					}
+				}
+				t.rec.Emit(E{"ev": "ReflCall", "srv": t.name, "conn": id, "method": info.FullMethod, "ok": ok,
+					"reflmd": strings.Join(md.Get(ReflKey), ","), "authority": auth})
+				if !ok {
+					return status.Error(codes.Unauthenticated, "reflection needs credentials")
+				}
 				return h(srv, ss)
 			}))
 	}
@@ -205,7 +256,12 @@ func (t *Target) intercept(ctx context.Context, req interface{}, info *grpc.Unar
 		}
 	}
 	mds := []E{}
+	authority, reflmd := "", false
 	if md, ok := metadata.FromIncomingContext(ctx); ok {
+		if v := md.Get(":authority"); len(v) > 0 {
+			authority = v[0]
+		}
+		reflmd = len(md.Get(ReflKey)) > 0
 		keys := make([]string, 0, len(md))
 		for k := range md {
 			if !ownMetadata(k) {
@@ -232,7 +288,8 @@ func (t *Target) intercept(ctx context.Context, req interface{}, info *grpc.Unar
 		conn, _ = ctx.Value(connKey{}).(int)
 	}
 	ans := t.answerFor(pres)
-	t.rec.Emit(E{"ev": "Recv", "proto": "grpc", "srv": t.name, "conn": conn, "method": m, "fields": fields, "md": mds, "toks": toks, "ans": ans.String()})
+	t.rec.Emit(E{"ev": "Recv", "proto": "grpc", "srv": t.name, "conn": conn, "method": m, "fields": fields, "md": mds, "toks": toks, "ans": ans.String(),
+		"authority": authority, "reflmd": reflmd})
 	if ans != codes.OK {
 		return nil, status.Error(ans, "the target answers this entry with "+ans.String())
 	}
@@ -246,6 +303,13 @@ func (t *Target) Hello(ctx context.Context, r *server.HelloRequest) (*server.Hel
 		case <-ctx.Done():
 			// the caller's deadline (propagated by grpc) is over: a real server's work is cancelled, it does not
 			// answer OK at the very moment the deadline fires
+			return nil, status.FromContextError(ctx.Err()).Err()
+		}
+	}
+	if t.waitFor > 0 && strings.HasPrefix(r.GetName(), "wait") {
+		select {
+		case <-time.After(t.waitFor):
+		case <-ctx.Done():
 			return nil, status.FromContextError(ctx.Err()).Err()
 		}
 	}
